@@ -169,6 +169,22 @@ func collect(info *types.Info, f *ast.File, rel string) []site {
 		if !ok || fd.Body == nil {
 			continue
 		}
+		// the tail of the body moves into a new function of the variables it reads
+		for _, cut := range tailCuts(fd) {
+			cut := cut
+			if plan := planTail(info, f, fd, cut, rel); plan != nil {
+				add("extract-tail", plan)
+			}
+		}
+		// one to three consecutive statements of the body move into a new function; what they define or
+		// assign and is used later comes back as results
+		for i := 0; i < len(fd.Body.List); i++ {
+			for n := 1; n <= 3 && i+n < len(fd.Body.List); n++ {
+				if plan := planMiddle(info, f, fd, i, i+n, rel); plan != nil {
+					add("extract-mid", plan)
+				}
+			}
+		}
 		// rename-local: every local variable/parameter defined in this function
 		defs := map[types.Object][]*ast.Ident{}
 		var order []types.Object
@@ -247,6 +263,27 @@ func collect(info *types.Info, f *ast.File, rel string) []site {
 					// x++ -> x += 1 : rewrite through the parent list
 				})
 				out = out[:len(out)-1] // placeholder removed: handled below through statement lists
+			case *ast.SliceExpr:
+				if x.Low == nil && !x.Slice3 {
+					add("slice-zero-low", func() { x.Low = &ast.BasicLit{Kind: token.INT, Value: "0"} })
+				}
+			case *ast.BasicLit:
+				// a string or integer literal gets a name: a new package-level constant
+				if (x.Kind == token.STRING && len(x.Value) > 4) || (x.Kind == token.INT && x.Value != "0" && x.Value != "1") {
+					switch c.Parent().(type) {
+					case *ast.ImportSpec, *ast.Field, *ast.ArrayType:
+					default:
+						if tv, ok := info.Types[x]; ok && tv.Value != nil {
+							val := x.Value
+							add("name-literal", func() {
+								name := "literalRn"
+								x.Kind, x.Value = token.STRING, name // printed verbatim: an identifier
+								f.Decls = append(f.Decls, &ast.GenDecl{Tok: token.CONST, Specs: []ast.Spec{&ast.ValueSpec{
+									Names: []*ast.Ident{ast.NewIdent(name)}, Values: []ast.Expr{&ast.BasicLit{Kind: token.STRING, Value: val}}}}})
+							})
+						}
+					}
+				}
 			case *ast.BinaryExpr:
 				if x.Op == token.EQL || x.Op == token.NEQ {
 					add("flip-eq", func() { x.X, x.Y = x.Y, x.X })
@@ -429,7 +466,56 @@ func collect(info *types.Info, f *ast.File, rel string) []site {
 								y.Body.List = append(append([]ast.Stmt(nil), l[1:]...), l[0])
 							})
 						}
+					case *ast.ForStmt:
+						// for … { if c {A} }  ->  for … { if !c { continue }; A }
+						body := y.Body
+						if len(body.List) == 1 {
+							if inner, ok := body.List[0].(*ast.IfStmt); ok && inner.Init == nil && inner.Else == nil && len(inner.Body.List) > 0 {
+								add("early-continue", func() {
+									guard := &ast.IfStmt{Cond: &ast.UnaryExpr{Op: token.NOT, X: &ast.ParenExpr{X: inner.Cond}}, Body: &ast.BlockStmt{List: []ast.Stmt{&ast.BranchStmt{Tok: token.CONTINUE}}}}
+									body.List = append([]ast.Stmt{guard}, inner.Body.List...)
+								})
+							}
+						}
 					case *ast.ExprStmt, *ast.AssignStmt:
+						// x := &T{A: a, B: b}  ->  x := &T{}; x.A = a; x.B = b
+						if as, isAs := st.(*ast.AssignStmt); isAs && as.Tok == token.DEFINE && len(as.Lhs) == 1 && len(as.Rhs) == 1 {
+							var lit *ast.CompositeLit
+							switch r := as.Rhs[0].(type) {
+							case *ast.CompositeLit:
+								lit = r
+							case *ast.UnaryExpr:
+								if r.Op == token.AND {
+									lit, _ = r.X.(*ast.CompositeLit)
+								}
+							}
+							if id, ok := as.Lhs[0].(*ast.Ident); ok && lit != nil && len(lit.Elts) > 0 && id.Name != "_" {
+								t := info.TypeOf(lit)
+								if t != nil {
+									if _, isStruct := t.Underlying().(*types.Struct); isStruct {
+										keyed := true
+										for _, el := range lit.Elts {
+											if kv, ok := el.(*ast.KeyValueExpr); !ok {
+												keyed = false
+											} else if _, ok := kv.Key.(*ast.Ident); !ok {
+												keyed = false
+											}
+										}
+										if keyed {
+											add("lit-to-assign", func() {
+												var stmts []ast.Stmt
+												for _, el := range lit.Elts {
+													kv := el.(*ast.KeyValueExpr)
+													stmts = append(stmts, &ast.AssignStmt{Lhs: []ast.Expr{&ast.SelectorExpr{X: ast.NewIdent(id.Name), Sel: ast.NewIdent(kv.Key.(*ast.Ident).Name)}}, Tok: token.ASSIGN, Rhs: []ast.Expr{kv.Value}})
+												}
+												lit.Elts = nil
+												splice(x, i, append([]ast.Stmt{st}, stmts...)...)
+											})
+										}
+									}
+								}
+							}
+						}
 						// two adjacent assignments that neither call anything nor touch what the other names swap places
 						if a, isAs := st.(*ast.AssignStmt); isAs && i+1 < len(x.List) {
 							if b, isAs2 := x.List[i+1].(*ast.AssignStmt); isAs2 && independent(info, a, b) {
@@ -1335,4 +1421,420 @@ func independent(info *types.Info, a, b *ast.AssignStmt) bool {
 		}
 	}
 	return !overlap(paths(a, true), paths(b, false)) && !overlap(paths(b, true), paths(a, false))
+}
+
+func tailCuts(fd *ast.FuncDecl) []int {
+	n := len(fd.Body.List)
+	switch {
+	case n < 3:
+		return nil
+	case n < 6:
+		return []int{n / 2}
+	}
+	return []int{n / 3, 2 * n / 3}
+}
+
+// planTail: statements cut.. of fd's body become `func <name>TailRn(<free variables>) <results> {…}` and the
+// body ends in a call of it. Not for generic functions, named results, labels, or a tail that writes a
+// variable some earlier closure captured.
+func planTail(info *types.Info, f *ast.File, fd *ast.FuncDecl, cut int, rel string) func() {
+	if fd.Type.TypeParams != nil || (fd.Recv != nil && recvHasTypeParams(fd)) {
+		return nil
+	}
+	if fd.Type.Results != nil {
+		for _, r := range fd.Type.Results.List {
+			if len(r.Names) > 0 {
+				return nil
+			}
+		}
+	}
+	head, tail := fd.Body.List[:cut], fd.Body.List[cut:]
+	bad := false
+	ast.Inspect(fd.Body, func(n ast.Node) bool {
+		switch x := n.(type) {
+		case *ast.LabeledStmt:
+			bad = true
+		case *ast.BranchStmt:
+			if x.Label != nil || x.Tok == token.GOTO {
+				bad = true
+			}
+		case *ast.CallExpr:
+			if id, ok := x.Fun.(*ast.Ident); ok && id.Name == "recover" {
+				bad = true
+			}
+		}
+		return !bad
+	})
+	if bad {
+		return nil
+	}
+	start, end := tail[0].Pos(), fd.Body.Rbrace
+	var free []*types.Var
+	seen := map[*types.Var]bool{}
+	assigned := map[*types.Var]bool{}
+	for _, st := range tail {
+		ast.Inspect(st, func(n ast.Node) bool {
+			switch x := n.(type) {
+			case *ast.AssignStmt:
+				for _, l := range x.Lhs {
+					if id, ok := l.(*ast.Ident); ok {
+						if v, ok := info.Uses[id].(*types.Var); ok {
+							assigned[v] = true
+						}
+					}
+				}
+			case *ast.UnaryExpr:
+				if id, ok := x.X.(*ast.Ident); ok && x.Op == token.AND {
+					if v, ok := info.Uses[id].(*types.Var); ok {
+						assigned[v] = true
+					}
+				}
+			case *ast.IncDecStmt:
+				if id, ok := x.X.(*ast.Ident); ok {
+					if v, ok := info.Uses[id].(*types.Var); ok {
+						assigned[v] = true
+					}
+				}
+			case *ast.Ident:
+				v, ok := info.Uses[x].(*types.Var)
+				if !ok || v.IsField() || v.Pkg() == nil || v.Parent() == v.Pkg().Scope() || seen[v] {
+					return true
+				}
+				if v.Pos() >= fd.Pos() && v.Pos() < start {
+					seen[v] = true
+					free = append(free, v)
+				}
+			}
+			return true
+		})
+	}
+	// a variable the tail writes (or takes the address of) must not be visible to a closure of the head,
+	// and no address of it may have been taken there
+	for _, st := range head {
+		ast.Inspect(st, func(n ast.Node) bool {
+			switch x := n.(type) {
+			case *ast.FuncLit:
+				ast.Inspect(x, func(m ast.Node) bool {
+					if id, ok := m.(*ast.Ident); ok {
+						if v, ok := info.Uses[id].(*types.Var); ok && assigned[v] && seen[v] {
+							bad = true
+						}
+					}
+					return !bad
+				})
+			case *ast.UnaryExpr:
+				if id, ok := x.X.(*ast.Ident); ok && x.Op == token.AND {
+					if v, ok := info.Uses[id].(*types.Var); ok && seen[v] {
+						bad = true
+					}
+				}
+			}
+			return !bad
+		})
+	}
+	if bad {
+		return nil
+	}
+	qual := func(p *types.Package) string {
+		if p == fd2pkg(info, fd) {
+			return ""
+		}
+		return p.Name()
+	}
+	var params, args []string
+	for _, v := range free {
+		ts := types.TypeString(v.Type(), qual)
+		if strings.Contains(ts, "struct{") || strings.Contains(ts, "/") {
+			return nil
+		}
+		params = append(params, v.Name()+" "+ts)
+		args = append(args, v.Name())
+	}
+	return func() {
+		name := fileSet.Position(f.Pos()).Filename
+		src, err := os.ReadFile(name)
+		if err != nil {
+			return
+		}
+		a, b := fileSet.Position(start).Offset, fileSet.Position(end).Offset
+		results := ""
+		if fd.Type.Results != nil {
+			results = " " + string(src[fileSet.Position(fd.Type.Results.Pos()).Offset:fileSet.Position(fd.Type.Results.End()).Offset])
+		}
+		helper := fd.Name.Name + "TailRn"
+		if fd.Recv != nil {
+			helper = strings.ToLower(recvTypeName(fd)[:1]) + recvTypeName(fd)[1:] + strings.ToUpper(fd.Name.Name[:1]) + fd.Name.Name[1:] + "TailRn"
+		}
+		call := helper + "(" + strings.Join(args, ", ") + ")\n"
+		if fd.Type.Results != nil {
+			call = "return " + call
+		}
+		decl := "\n\nfunc " + helper + "(" + strings.Join(params, ", ") + ")" + results + " {\n" + string(src[a:b]) + "}\n"
+		out := append([]byte(nil), src[:a]...)
+		out = append(out, call...)
+		out = append(out, src[b:]...)
+		out = append(out, decl...)
+		rawEdits[rel] = out
+	}
+}
+
+func recvTypeName(fd *ast.FuncDecl) string {
+	t := fd.Recv.List[0].Type
+	if s, ok := t.(*ast.StarExpr); ok {
+		t = s.X
+	}
+	if id, ok := t.(*ast.Ident); ok {
+		return id.Name
+	}
+	return "recv"
+}
+
+func planMiddle(info *types.Info, f *ast.File, fd *ast.FuncDecl, from, to int, rel string) func() {
+	if fd.Type.TypeParams != nil || (fd.Recv != nil && recvHasTypeParams(fd)) {
+		return nil
+	}
+	if fd.Type.Results != nil {
+		for _, r := range fd.Type.Results.List {
+			if len(r.Names) > 0 {
+				return nil
+			}
+		}
+	}
+	head, mid, rest := fd.Body.List[:from], fd.Body.List[from:to], fd.Body.List[to:]
+	bad := false
+	interesting := false
+	for _, st := range mid {
+		if _, isDecl := st.(*ast.DeclStmt); isDecl {
+			return nil
+		}
+		ast.Inspect(st, func(n ast.Node) bool {
+			switch x := n.(type) {
+			case *ast.ReturnStmt, *ast.DeferStmt, *ast.LabeledStmt, *ast.GoStmt, *ast.FuncLit:
+				bad = true
+			case *ast.BranchStmt:
+				if x.Label != nil || x.Tok == token.GOTO {
+					bad = true
+				}
+			case *ast.CallExpr:
+				interesting = true
+				if id, ok := x.Fun.(*ast.Ident); ok && id.Name == "recover" {
+					bad = true
+				}
+			}
+			return !bad
+		})
+	}
+	if bad || !interesting {
+		return nil
+	}
+	start, end := mid[0].Pos(), mid[len(mid)-1].End()
+	var free []*types.Var
+	seen := map[*types.Var]bool{}
+	assigned := map[*types.Var]bool{}
+	defined := map[*types.Var]bool{}
+	var order []*types.Var
+	note := func(v *types.Var) {
+		for _, o := range order {
+			if o == v {
+				return
+			}
+		}
+		order = append(order, v)
+	}
+	for _, st := range mid {
+		ast.Inspect(st, func(n ast.Node) bool {
+			switch x := n.(type) {
+			case *ast.AssignStmt:
+				for _, l := range x.Lhs {
+					if id, ok := l.(*ast.Ident); ok {
+						if v, ok := info.Uses[id].(*types.Var); ok {
+							assigned[v] = true
+							note(v)
+						}
+					}
+				}
+			case *ast.UnaryExpr:
+				if id, ok := x.X.(*ast.Ident); ok && x.Op == token.AND {
+					if v, ok := info.Uses[id].(*types.Var); ok {
+						assigned[v] = true
+						note(v)
+					}
+				}
+			case *ast.IncDecStmt:
+				if id, ok := x.X.(*ast.Ident); ok {
+					if v, ok := info.Uses[id].(*types.Var); ok {
+						assigned[v] = true
+						note(v)
+					}
+				}
+			case *ast.RangeStmt:
+				for _, e := range []ast.Expr{x.Key, x.Value} {
+					if id, ok := e.(*ast.Ident); ok && x.Tok == token.ASSIGN {
+						if v, ok := info.Uses[id].(*types.Var); ok {
+							assigned[v] = true
+							note(v)
+						}
+					}
+				}
+			case *ast.Ident:
+				if v, ok := info.Defs[x].(*types.Var); ok && v != nil {
+					defined[v] = true
+					note(v)
+				}
+				v, ok := info.Uses[x].(*types.Var)
+				if !ok || v.IsField() || v.Pkg() == nil || v.Parent() == v.Pkg().Scope() || seen[v] {
+					return true
+				}
+				if v.Pos() >= fd.Pos() && v.Pos() < start {
+					seen[v] = true
+					free = append(free, v)
+				}
+			}
+			return true
+		})
+	}
+	usedLater := map[*types.Var]bool{}
+	for _, st := range rest {
+		ast.Inspect(st, func(n ast.Node) bool {
+			if id, ok := n.(*ast.Ident); ok {
+				if v, ok := info.Uses[id].(*types.Var); ok {
+					usedLater[v] = true
+				}
+			}
+			return true
+		})
+	}
+	var newOut, oldOut []*types.Var
+	for _, v := range order {
+		if !usedLater[v] {
+			continue
+		}
+		switch {
+		case defined[v] && v.Pos() >= start && v.Pos() < end && v.Parent() != nil:
+			// only what the range defines at the level of the body is visible later
+			top := false
+			for _, st := range mid {
+				if as, ok := st.(*ast.AssignStmt); ok && as.Tok == token.DEFINE {
+					for _, l := range as.Lhs {
+						if id, ok := l.(*ast.Ident); ok && info.Defs[id] == types.Object(v) {
+							top = true
+						}
+					}
+				}
+			}
+			if top {
+				newOut = append(newOut, v)
+			}
+		case assigned[v] && seen[v]:
+			oldOut = append(oldOut, v)
+		}
+	}
+	if (len(newOut) > 0 && len(oldOut) > 0) || len(newOut)+len(oldOut) > 3 {
+		return nil
+	}
+	// a `x, err := …` in the range that re-assigns an outer variable while defining a new one used later: mixed, skip
+	for _, st := range mid {
+		if as, ok := st.(*ast.AssignStmt); ok && as.Tok == token.DEFINE {
+			for _, l := range as.Lhs {
+				if id, ok := l.(*ast.Ident); ok && id.Name != "_" && info.Defs[id] == nil {
+					if v, ok := info.Uses[id].(*types.Var); ok && usedLater[v] && len(newOut) > 0 {
+						return nil
+					}
+				}
+			}
+		}
+	}
+	// variables the range writes must not be visible to closures of the head, nor have their address taken anywhere
+	ast.Inspect(fd.Body, func(n ast.Node) bool {
+		switch x := n.(type) {
+		case *ast.FuncLit:
+			if x.Pos() < start {
+				ast.Inspect(x, func(m ast.Node) bool {
+					if id, ok := m.(*ast.Ident); ok {
+						if v, ok := info.Uses[id].(*types.Var); ok && assigned[v] {
+							bad = true
+						}
+					}
+					return !bad
+				})
+			}
+		case *ast.UnaryExpr:
+			if id, ok := x.X.(*ast.Ident); ok && x.Op == token.AND {
+				if v, ok := info.Uses[id].(*types.Var); ok && (assigned[v] || defined[v]) {
+					bad = true
+				}
+			}
+		}
+		return !bad
+	})
+	_ = head
+	if bad {
+		return nil
+	}
+	qual := func(p *types.Package) string {
+		if p == fd2pkg(info, fd) {
+			return ""
+		}
+		return p.Name()
+	}
+	typeOf := func(v *types.Var) (string, bool) {
+		ts := types.TypeString(v.Type(), qual)
+		if strings.Contains(ts, "struct{") || strings.Contains(ts, "/") || strings.Contains(ts, "untyped") {
+			return "", false
+		}
+		return ts, true
+	}
+	var params, args, results, outs []string
+	for _, v := range free {
+		ts, ok := typeOf(v)
+		if !ok {
+			return nil
+		}
+		// a struct or array handed over by value would be written through on the copy
+		switch v.Type().Underlying().(type) {
+		case *types.Struct, *types.Array:
+			return nil
+		}
+		params = append(params, v.Name()+" "+ts)
+		args = append(args, v.Name())
+	}
+	out := newOut
+	tok := ":="
+	if len(oldOut) > 0 {
+		out, tok = oldOut, "="
+	}
+	for _, v := range out {
+		ts, ok := typeOf(v)
+		if !ok {
+			return nil
+		}
+		results = append(results, ts)
+		outs = append(outs, v.Name())
+	}
+	return func() {
+		name := fileSet.Position(f.Pos()).Filename
+		src, err := os.ReadFile(name)
+		if err != nil {
+			return
+		}
+		a, b := fileSet.Position(start).Offset, fileSet.Position(end).Offset
+		helper := fd.Name.Name + "StepRn"
+		if fd.Recv != nil {
+			helper = strings.ToLower(recvTypeName(fd)[:1]) + recvTypeName(fd)[1:] + strings.ToUpper(fd.Name.Name[:1]) + fd.Name.Name[1:] + "StepRn"
+		}
+		call := helper + "(" + strings.Join(args, ", ") + ")"
+		sig := ""
+		ret := ""
+		if len(outs) > 0 {
+			call = strings.Join(outs, ", ") + " " + tok + " " + call
+			sig = " (" + strings.Join(results, ", ") + ")"
+			ret = "\nreturn " + strings.Join(outs, ", ")
+		}
+		decl := "\n\nfunc " + helper + "(" + strings.Join(params, ", ") + ")" + sig + " {\n" + string(src[a:b]) + ret + "\n}\n"
+		outb := append([]byte(nil), src[:a]...)
+		outb = append(outb, call...)
+		outb = append(outb, src[b:]...)
+		outb = append(outb, decl...)
+		rawEdits[rel] = outb
+	}
 }
